@@ -101,6 +101,15 @@ def specs():
         add("orientation." + nm, getattr(o, nm), lambda a: [a.R()])
     add("orientation.chiaverini[batch]", o.chiaverini, lambda a: [a.R(3)])
     add("orientation.hughes[batch]", o.hughes, lambda a: [a.R(3)])
+    add("orientation.q2cardan", o.q2cardan, lambda a: [a.qu()])
+    # module-level helpers of the filter / utility modules
+    from ahrs.filters import aqua as aqua_mod
+    from ahrs.utils import core as core_mod
+    for ratio in (0.0, 0.01, 0.5, 1.0):          # gain boundaries 0 and 1 included
+        for t_ in (0.9, 0.0):
+            add("aqua.slerp_I[ratio=%g,t=%g]" % (ratio, t_), lambda q, ratio=ratio, t_=t_: aqua_mod.slerp_I(q, ratio, t_), lambda a: [a.q()])
+            add("aqua.slerp_I[unit,ratio=%g,t=%g]" % (ratio, t_), lambda q, ratio=ratio, t_=t_: aqua_mod.slerp_I(q, ratio, t_), lambda a: [a.qu()])
+    add("core.get_nan_intervals", core_mod.get_nan_intervals, lambda a: [np.where(a.rng.random(12) < 0.4, np.nan, a.rng.standard_normal(12))])
     # quaternion module
     add("quaternion.slerp", qslerp, lambda a: [a.qu(), -a.qu(), a.t()])
     add("Quaternion(q)", lambda q: np.asarray(Quaternion(q)), lambda a: [a.q()])
